@@ -171,7 +171,7 @@ class StateMachineMetaclass(type):
     def add_inherited(cls, bases):
         for base in bases:
             for state in getattr(base, "states", []):
-                cls.add_state(state.id, state)
+                cls.add_state(state.id, state, inherited=True)
 
             events = getattr(base, "_events", {})
             for event in events:
@@ -209,7 +209,7 @@ class StateMachineMetaclass(type):
         if func.is_event:
             cls.add_event(event=Event(func._transitions, id=attr_name, name=attr_name))
 
-    def add_state(cls, id, state: State):
+    def add_state(cls, id, state: State, inherited: bool = False):
         state._set_id(id)
         cls.states.append(state)
         cls.states_map[state.value] = state
@@ -217,7 +217,10 @@ class StateMachineMetaclass(type):
             setattr(cls, id, state)
 
         # also register all events associated directly with transitions
+        # (the transitions of an inherited state were already expanded by the base class)
         for event in state.transitions.unique_events:
+            if inherited and event._has_real_id:
+                event = Event(id=event.id, name=event.name)
             cls.add_event(event)
 
     def add_event(
